@@ -766,8 +766,8 @@ class Engine:
                 assoc_path(self.topology, path, topology_update)
 
         if flow_updates:
-            for path, topology_update in flow_updates:
-                assoc_path(self.flow, path, flow_updates)
+            for path, flow_update in flow_updates:
+                assoc_path(self.flow, path, flow_update)
 
         if process_updates:
             for path, process in process_updates:
